@@ -257,7 +257,43 @@ def f3(prog, ctx):
         ctx.ok("F3", "%s:%d" % (LRC, regs[0].lineno), "feature registered on inclusion and on exclusion")
 
 
+def f4(prog, ctx):
+    """The windows inside which a feature counts as 'spanned' are mirror-symmetric and use inner block borders for exons."""
+    from ..engine import reflect
+    LRP = "src/long_read_profiles.py"
+    n = 0
+    for q, want_inner in (("OverlappingFeaturesProfileConstructor.construct_exon_profile", True),
+                          ("OverlappingFeaturesProfileConstructor.construct_intron_profile", False)):
+        f = prog.func(LRP, q)
+        defs = [s_ for s_ in walk_no_nested(f) if isinstance(s_, ast.Assign) and src(s_.targets[0]) == "mapped_region"]
+        if len(defs) != 1 or not isinstance(defs[0].value, ast.Tuple) or len(defs[0].value.elts) != 2:
+            raise AnalysisError("%s: mapped_region tuple not found" % q)
+        a, b = defs[0].value.elts
+        roles = reflect.Roles(seq=["sorted_blocks"])
+        ma = reflect.Reflector(roles, True, f).pos_coord(a)
+        pb = reflect.Reflector(roles, False, f).pos_coord(b)
+        n += 1
+        if ma != pb:
+            ctx.fail("F4", defs[0], q, src(defs[0]), "the window in which a feature counts as skipped is not mirror-symmetric: its left border "
+                     "mirrors to %s but the right border is %s - features near one end of the read are counted as excluded although "
+                     "the read does not skip them (or the reverse)" % (ma, pb))
+        else:
+            ctx.ok("F4", "%s:%d" % (LRP, defs[0].lineno), "%s: mapped_region is mirror-symmetric (%s)" % (q.split(".")[-1], src(defs[0].value)))
+        inner = "sorted_blocks[0][1]" in src(a) and "sorted_blocks[-1][0]" in src(b)
+        outer = "sorted_blocks[0][0]" in src(a) and "sorted_blocks[-1][1]" in src(b)
+        if want_inner and not inner:
+            ctx.fail("F4", defs[0], q, src(defs[0]), "exon exclusion must be judged between the read's first exon END and last exon START "
+                     "(an exon lying between the first and last exon of the read)")
+        elif not want_inner and not outer:
+            ctx.fail("F4", defs[0], q, src(defs[0]), "intron exclusion must be judged over the read's whole span")
+        else:
+            ctx.ok("F4", "%s:%d" % (LRP, defs[0].lineno), "%s window uses the %s block borders" % (q.split(".")[-1], "inner" if want_inner else "outer"))
+    ctx.floor("F4", "profile windows", n, 2)
+
+
 def run(prog, ctx):
+    ctx.rule("F4", "the 'spanned' window of the exon profile is (first block end + delta, last block start - delta) and that of the intron "
+                   "profile the read's whole span; both are mirror-symmetric under strand reflection")
     ctx.rule("F3", "ProfileFeatureCounter.dump iterates all registered features x all groups and writes a row iff one count is positive; "
                    "features are registered on both inclusion and exclusion")
     ctx.rule("F1", "feature-kind tags (exon / intron / split_exon, read from identifiers) agree at every hand-over of a profile or "
@@ -268,6 +304,7 @@ def run(prog, ctx):
     n = f1(prog, ctx)
     f2(prog, ctx)
     f3(prog, ctx)
+    f4(prog, ctx)
     ctx.floor("F1", "hand-over sites", n, 18)
     ctx.assume("that profile values themselves are right (set-theoretic, C19-like) is not decided")
     ctx.assume("identifiers name the feature kind they hold (exon/intron/split_exon stems) - the repository's own convention")
